@@ -496,6 +496,12 @@ func objectClone(in *object, out *object, clone *cloner) *object {
 		// header (length, capacity) kept in the wrapper belongs to one runtime:
 		// push and length on one copy must not show in another.
 		header := *value
+		if !header.value.CanSet() && header.value.Len() < header.value.Cap() {
+			// Spare capacity beyond the length is not the host's: a push on
+			// one copy would write where a push on another copy writes.
+			n := header.value.Len()
+			header.value = header.value.Slice3(0, n, n)
+		}
 		out.value = &header
 	}
 
